@@ -277,6 +277,7 @@ def run(idx: ProgramIndex, rep: Report, tier: str):
     from .common_alias import aliasing_obligations
     aliasing_obligations(idx, rep, "C10-4", list(M.methods.values()), 15, "MultivariateNormal methods interpreted")
     carried_factor(idx, rep, M)
+    constructor_broadcasts(idx, rep, M)
 
 
 # ---- C10-5: a Cholesky factor carried over into a new distribution ------------------------------------------------------
@@ -397,3 +398,48 @@ def carried_factor(idx: ProgramIndex, rep: Report, M):
                             probs.append("the covariance of the new distribution is recomputed (`%s`) while the factor is carried over unchanged" % src(cov)[:40])
                     rep.add("C10-5", inst, where, not probs, "factor and covariance undergo the same shape-only operations %s" % ops if not probs else "; ".join(probs), {"ops": ops})
     rep.floor("C10-5", "carried Cholesky factors", n, 4)
+
+
+# ---- C10-6 ---------------------------------------------------------------------------------------------------------
+def constructor_broadcasts(idx: ProgramIndex, rep: Report, M):
+    """Every method of MultivariateNormal assumes that `loc` and the covariance already have the distribution's batch shape (log_prob
+    computes repeat factors by integer division of the two, rsample adds noise of the covariance's batch shape to loc, __getitem__ indexes
+    both with the same batch index).  The dense branch of the constructor gets that from torch (which broadcasts loc and the scale
+    factor); the lazy branch has to establish it itself: what it stores as loc / covariance must be expanded to the very batch shape it
+    declares to the base class."""
+    from ..symbolic import inline, walk_paths
+    rep.rule("C10-6", "the lazy branch of the constructor stores mean and covariance expanded to the batch shape it declares (as the dense branch does through torch)")
+    init = idx.method(M, "__init__", own=True)
+    sn = init.params[0]
+    n = 0
+    probs = set()
+    for path, seq in walk_paths(init):
+        stores = {}
+        declared = None
+        lazy = False
+        for st, env in seq:
+            if getattr(st, "kind", "") == "assume" and "_islazy" in src(st.node) and st.truth:
+                lazy = True
+            if not isinstance(st, ast.stmt):
+                continue
+            if isinstance(st, ast.Assign) and len(st.targets) == 1 and isinstance(st.targets[0], ast.Attribute) and chain(st.targets[0].value) == sn and st.targets[0].attr in ("loc", "_covar"):
+                stores[st.targets[0].attr] = inline(st.value, env)
+            for c in (x for x in ast.walk(st) if isinstance(x, ast.Call) and isinstance(x.func, ast.Attribute) and x.func.attr == "__init__" and "super" in src(x.func.value) and x.args):
+                declared = inline(c.args[0], env)
+        if not lazy or declared is None or set(stores) != {"loc", "_covar"}:
+            continue
+        n += 1
+        dd = ast.dump(declared)
+        for k, v in stores.items():
+            # the stored value must be `<something>.expand(*<declared batch shape>, ...)` on the paths that can carry batch dimensions
+            ok = False
+            for x in ast.walk(v):
+                if isinstance(x, ast.Call) and isinstance(x.func, ast.Attribute) and x.func.attr in ("expand", "_expand_batch") and any(isinstance(a, ast.Starred) and ast.dump(a.value) == dd for a in x.args):
+                    ok = True
+            # degenerate inputs (0-d mean) may be stored as they are if the path assumed so
+            degenerate = any(getattr(s_, "kind", "") == "assume" and ".dim()" in src(s_.node) and not s_.truth for s_, _e in seq)
+            if not ok and not degenerate:
+                probs.add("self.%s is stored as `%s`, not expanded to the declared batch shape `%s`" % (k, " ".join(src(v).split())[:40], " ".join(src(declared).split())[:60]))
+    rep.add("C10-6", "%s:MultivariateNormal.__init__[lazy branch]" % MOD, init.where, n > 0 and not probs,
+            "loc and covariance are expanded to the declared batch shape on %d lazy path(s)" % n if n > 0 and not probs else
+            ("; ".join(sorted(probs)) + ": a lazy distribution whose mean and covariance have different batch shapes is accepted and reports the broadcast batch shape, but log_prob / rsample / kl / indexing work on the un-broadcast tensors (raise, or return a non-square 'covariance')" if probs else "no lazy construction path found"), {})
